@@ -52,7 +52,7 @@ func Serve(f []string, schemaText string, types map[string]reflect.Type,
 		if !ok {
 			return "nobinding not a named struct"
 		}
-		return "ok " + normDesc(body.TextIdx(nil)) + " " + goFieldNames(body)
+		return "ok " + NormDesc(body.TextIdx(nil)) + " " + GoFieldNames(body)
 	case "tlbs.enc":
 		v, err := tlbx.Read(f[3], rt)
 		if err != nil {
@@ -99,12 +99,12 @@ var (
 )
 
 // normDesc: names of generated types without their (scratch) package, dictionaries identified by their key width.
-func normDesc(s string) string {
+func NormDesc(s string) string {
 	s = rePkg.ReplaceAllString(s, "(:n|:")
 	return reDict.ReplaceAllString(s, "(:de|:HashmapE$1)")
 }
 
-func goFieldNames(body *tlbx.Desc) string {
+func GoFieldNames(body *tlbx.Desc) string {
 	one := func(d *tlbx.Desc) string {
 		var ns []string
 		for _, f := range d.Fields {
